@@ -12,6 +12,10 @@ use std::sync::Arc;
 
 const KINDS: [&str; 4] = ["ping", "find_node", "get_peers", "announce_bad_token"];
 
+fn stranger() -> SocketAddr {
+    "10.0.10.200:4200".parse().unwrap()
+}
+
 fn n_addr() -> SocketAddr {
     "10.0.0.10:6881".parse().unwrap()
 }
@@ -60,7 +64,12 @@ pub fn build(kind: &str, query_at: u64, rng_seed: u64) -> (Scenario, Vec<Box<dyn
     contacts.extend((0..7).map(crowd_addr));
     sc.nodes.push(NodeSpec { addr: n_addr(), id: Some(InfoHash::from(n_id())), read_only: false, announce_port: None, contacts, routers: vec![], start_ms: 0 });
     sc.actions.push((When::At(query_at - 1), Action::LoadContacts { node: 0, tag: "before".into() }));
-    sc.actions.push((When::At(query_at), Action::PeerCommand { peer: c_addr(), cmd: format!("{kind} {}", n_addr()) }));
+    if kind == "spoofed-ping" {
+        // a ping that carries the contact's id but comes from another address: not a query *from the contact*
+        sc.actions.push((When::At(query_at), Action::Inject { from: stranger(), to: n_addr(), bytes: sim::krpc::ping(b"sp", &c_id()), tag: String::new() }));
+    } else {
+        sc.actions.push((When::At(query_at), Action::PeerCommand { peer: c_addr(), cmd: format!("{kind} {}", n_addr()) }));
+    }
     sc.actions.push((When::At(query_at + 100), Action::LoadContacts { node: 0, tag: "after".into() }));
     sc.actions.push((When::At(query_at + 600_000), Action::LoadContacts { node: 0, tag: "after10min".into() }));
     sc.actions.push((When::At(query_at + 901_000), Action::LoadContacts { node: 0, tag: "after15min".into() }));
@@ -124,25 +133,95 @@ fn x_id(h: &[u8; 20]) -> [u8; 20] {
 /// One answering contact G names the silent node X (known by name only, never good) in its get_peers
 /// answers; `searches` searches for the same info-hash are requested `gap_ms` apart.
 pub fn build_two_searches(searches: usize, gap_ms: u64, rng_seed: u64) -> (Scenario, Vec<Box<dyn Peer>>) {
+    build_two_searches_x(searches, gap_ms, rng_seed, false)
+}
+
+/// `x_answers_table_queries`: X ignores get_peers but answers ping / find_node (so the refresh's ping, its
+/// second query, is answered).
+pub fn build_two_searches_x(searches: usize, gap_ms: u64, rng_seed: u64, x_answers_table_queries: bool) -> (Scenario, Vec<Box<dyn Peer>>) {
     let mut sc = Scenario::new("search-queries-count-against-silent-node");
     sc.rng_seed = rng_seed;
     let h = [0x5eu8; 20];
     let universe = Arc::new(vec![(c_id(), c_addr())]);
     let mut g = Responder::new(c_addr(), c_id(), universe.clone());
     g.node_list = crate::sim::peers::NodeList::Fixed(vec![(x_id(&h), x_addr())]);
+    #[allow(unused_mut)]
+    let mut g = g;
     g.find_node_list = Some(crate::sim::peers::NodeList::Closest8);
-    let peers: Vec<Box<dyn Peer>> = vec![Box::new(g), Box::new(crate::sim::peers::Sink { addr: x_addr(), received: vec![] })];
-    sc.nodes.push(NodeSpec { addr: n_addr(), id: Some(InfoHash::from(n_id())), read_only: true, announce_port: None, contacts: vec![c_addr()], routers: vec![], start_ms: 0 });
+    let mut contacts = vec![c_addr()];
+    let mut peers: Vec<Box<dyn Peer>> = vec![];
+    let mut search_hash = h;
+    let xp: Box<dyn Peer> = if x_answers_table_queries {
+        // well-connected node (12 more answering contacts: no periodic re-bootstrap, one refresh round per 6 s
+        // walking the buckets from 0); X sits in bucket 2 or 3, which the refresh reaches 2..8 s after the search
+        let mut xid = n_id();
+        let bucket = 2 + (searches % 2);
+        xid[0] ^= 0x80 >> bucket;
+        xid[19] ^= 0x33;
+        let mut x = Responder::new(x_addr(), xid, universe.clone());
+        x.search_mode = Some(crate::sim::peers::Mode::Silent);
+        g.node_list = crate::sim::peers::NodeList::Fixed(vec![(xid, x_addr())]);
+        // the searched hash is X's neighbourhood; G2 (also close to it, so asked in the first round) names X
+        let mut hx = xid;
+        hx[18] ^= 0x0f;
+        let mut g2id = xid;
+        g2id[17] ^= 0x01;
+        let g2a: SocketAddr = "10.0.10.78:6881".parse().unwrap();
+        let mut g2 = Responder::new(g2a, g2id, universe.clone());
+        g2.node_list = crate::sim::peers::NodeList::Fixed(vec![(xid, x_addr())]);
+        g2.find_node_list = Some(crate::sim::peers::NodeList::None);
+        peers.push(Box::new(g2));
+        contacts.push(g2a);
+        search_hash = hx;
+        let cu: Arc<Vec<([u8; 20], SocketAddr)>> = Arc::new((0..12).map(|i| (crowd_id(i), crowd_addr(i))).collect());
+        for i in 0..12 {
+            peers.push(Box::new(Responder::new(crowd_addr(i), crowd_id(i), cu.clone())));
+            contacts.push(crowd_addr(i));
+        }
+        Box::new(x)
+    } else {
+        Box::new(crate::sim::peers::Sink { addr: x_addr(), received: vec![] })
+    };
+    peers.push(Box::new(g));
+    peers.push(xp);
+    sc.nodes.push(NodeSpec { addr: n_addr(), id: Some(InfoHash::from(n_id())), read_only: true, announce_port: None, contacts, routers: vec![], start_ms: 0 });
     let t0 = 10_300u64;
     for k in 0..searches {
-        sc.actions.push((When::At(t0 + k as u64 * gap_ms), Action::Search { node: 0, info_hash: InfoHash::from(h), announce: false, tag: format!("s{k}") }));
+        sc.actions.push((When::At(t0 + k as u64 * gap_ms), Action::Search { node: 0, info_hash: InfoHash::from(search_hash), announce: false, tag: format!("s{k}") }));
     }
     for (k, dt) in [1_700u64, 2_500, 4_000].iter().enumerate() {
         sc.actions.push((When::At(t0 + (searches as u64 - 1) * gap_ms + dt), Action::LoadContacts { node: 0, tag: format!("after{k}") }));
     }
     sc.horizon_ms = t0 + searches as u64 * gap_ms + 6_000;
+    if x_answers_table_queries {
+        // long enough for the refresh to reach X's bucket (one bucket per 6 s round)
+        for (k, dt) in [60_000u64, 120_000].iter().enumerate() {
+            sc.actions.push((When::At(t0 + dt), Action::LoadContacts { node: 0, tag: format!("late{k}") }));
+        }
+        sc.horizon_ms = t0 + 125_000;
+    } else {
+        // the given-up node itself sends a query: receiving a query never (re-)adds its sender
+        sc.actions.push((When::At(t0 + (searches as u64 - 1) * gap_ms + 3_000), Action::Inject { from: x_addr(), to: n_addr(), bytes: sim::krpc::ping(b"xq", &x_id(&h)), tag: String::new() }));
+    }
     sc.link_latency = Arc::new(|_, _| 20);
     (sc, peers)
+}
+
+/// X answers the table's queries: once it has answered one it must be reported good (an answer always does).
+pub fn judge_x_answers(res: &RunResult) -> Vec<(String, String)> {
+    let mut v = vec![];
+    let answered: Vec<u64> = res.wire.iter().filter(|d| d.src == x_addr() && d.dst == n_addr() && sim::krpc::parse(&d.bytes).y == 'r').filter_map(|d| d.delivered_ms.first().copied()).collect();
+    if let Some(t_ans) = answered.first() {
+        for e in &res.api {
+            if let ApiKind::Contacts { good, .. } = &e.kind {
+                if e.t_ms > *t_ans + 100 && e.t_ms < *t_ans + 800_000 && !good.contains(&x_addr()) {
+                    v.push(("answering-node-not-reported-good".to_string(), format!("{} answered a query of the node at {} ms (its first answer; an earlier get_peers went unanswered); load_contacts at {} ms does not report it good", x_addr(), t_ans, e.t_ms)));
+                    break;
+                }
+            }
+        }
+    }
+    v
 }
 
 pub fn judge_two_searches(res: &RunResult) -> (Vec<(String, String)>, usize) {
@@ -176,6 +255,10 @@ pub fn judge_two_searches(res: &RunResult) -> (Vec<(String, String)>, usize) {
                     unanswered += 1;
                 }
             }
+            if good.contains(&x_addr()) {
+                v.push(("node-that-never-answered-reported-good".to_string(), format!("{} never answered anything (it was only named, asked, and at last sent a ping itself); load_contacts at {} ms reports it good", x_addr(), e.t_ms)));
+                break;
+            }
             if unanswered >= 2 && (good.contains(&x_addr()) || questionable.contains(&x_addr())) {
                 v.push(("silent-hearsay-node-still-reported-after-two-unanswered-queries".to_string(), format!("{} has left {} consecutive queries unanswered since it was last named to the node (events (ms, 0 = named / 1 = queried): {:?}), it never answered anything, and load_contacts at {} ms still lists it", x_addr(), unanswered, events, e.t_ms)));
                 break;
@@ -187,9 +270,21 @@ pub fn judge_two_searches(res: &RunResult) -> (Vec<(String, String)>, usize) {
 
 pub fn replay(v: &Value) -> i32 {
     if let Some(n) = v["two_searches"].as_u64() {
-        let (sc, peers) = build_two_searches(n as usize, v["gap_ms"].as_u64().unwrap_or(0), v["rng_seed"].as_u64().unwrap_or(1));
+        let xa = v["x_answers"].as_bool().unwrap_or(false);
+        let (sc, peers) = build_two_searches_x(n as usize, v["gap_ms"].as_u64().unwrap_or(0), v["rng_seed"].as_u64().unwrap_or(1), xa);
         let res = sim::run(&sc, peers, &mut sim::DefaultChooser);
-        let (viol, sent) = judge_two_searches(&res);
+        let (mut viol, sent) = if xa { (vec![], 0) } else { judge_two_searches(&res) };
+        if xa {
+            viol = judge_x_answers(&res);
+            for d in res.wire.iter().filter(|d| d.src == x_addr() || d.dst == x_addr()) {
+                println!("  {:>7} ms {} > {} {} delivered {:?}", d.sent_ms, d.src, d.dst, sim::krpc::parse(&d.bytes).canon_key(), d.delivered_ms);
+            }
+            for e in &res.api {
+                if let ApiKind::Contacts { good, questionable } = &e.kind {
+                    println!("  {:>7} ms {}: X good={} questionable={}", e.t_ms, e.tag, good.contains(&x_addr()), questionable.contains(&x_addr()));
+                }
+            }
+        }
         println!("{sent} queries sent to the silent node");
         for (s, w) in &viol {
             println!("VIOLATION {s}: {w}");
@@ -242,6 +337,17 @@ pub fn run(tier: Tier, rep: &mut Report) {
             rep.violation("handler query-kinds-classified-differently", format!("at {t} ms the four query kinds lead to different classifications: {:?}", ps), json!({"engine":"E1","check":"C10","part":"binding","kind":"ping","query_at":t,"rng_seed":seed}));
         }
     }
+    // a query carrying the contact's id from another address must not refresh the contact
+    for t in [901_500u64, 903_000] {
+        let (sc, peers) = build("spoofed-ping", t, seed);
+        let res = sim::run(&sc, peers, &mut sim::DefaultChooser);
+        rep.add("e1_wire_events", res.wire.len() as u64);
+        let (b, a) = (class(&res, "before"), class(&res, "after"));
+        if b == "questionable" && a == "good" {
+            rep.violation("handler query-from-another-address-refreshes-contact", format!("the contact ({}) is questionable at {} ms; a ping carrying its id arrives from {}; right afterwards the contact is reported good", c_addr(), t - 1, stranger()), json!({"engine":"E1","check":"C10","part":"binding","kind":"spoofed-ping","query_at":t,"rng_seed":seed}));
+        }
+        rep.add("e1_spoofed_id_runs", 1);
+    }
     // queries of searches count against a silent node like refresh pings do
     let mut two = 0u64;
     for n in [2usize, 3] {
@@ -259,6 +365,15 @@ pub fn run(tier: Tier, rep: &mut Report) {
             for (sig, what) in viol {
                 rep.violation(format!("handler {sig}"), what, json!({"engine":"E1","check":"C10","part":"binding","two_searches":n,"gap_ms":gap,"rng_seed":seed}));
             }
+        }
+    }
+    for n in [1usize, 2] {
+        let (sc, peers) = build_two_searches_x(n, 40, seed, true);
+        let res = sim::run(&sc, peers, &mut sim::DefaultChooser);
+        rep.add("e1_wire_events", res.wire.len() as u64);
+        two += 1;
+        for (sig, what) in judge_x_answers(&res) {
+            rep.violation(format!("handler {sig}"), what, json!({"engine":"E1","check":"C10","part":"binding","two_searches":n,"gap_ms":40,"x_answers":true,"rng_seed":seed}));
         }
     }
     rep.set("e1_two_search_runs", two);
